@@ -198,15 +198,25 @@ func c11Case(i int, raw []byte) Result {
 		}
 	}
 	var placed [][]pdfdoc.Placed
+	var fl struct {
+		Wide bool `json:"wide"`
+	}
+	json.Unmarshal(c.Flags, &fl)
+	var sizes [][2]int
 	for p, pg := range c.Doc {
 		var pl []pdfdoc.Placed
+		size := [2]int{612, 792}
+		if fl.Wide && p == 0 {
+			size = [2]int{792, 612} // a landscape cover: the same relative heights on a page 612 pt high
+		}
 		for _, f := range pg {
 			x, y := hfPos(f)
-			pl = append(pl, pdfdoc.Placed{X: x, Y: y, Size: 10, Text: hfText(f, p+1)})
+			pl = append(pl, pdfdoc.Placed{X: x, Y: y * size[1] / 792, Size: 10, Text: hfText(f, p+1)})
 		}
 		placed = append(placed, pl)
+		sizes = append(sizes, size)
 	}
-	data, err := pdfdoc.BuildSimple(placed, 612, 792)
+	data, err := pdfdoc.BuildSimpleSized(placed, sizes)
 	if err != nil {
 		return Result{OK: false, Sig: "MACHINERY:pdfw", What: err.Error()}
 	}
